@@ -204,6 +204,24 @@ CaseResult body_roundtrip(Chooser& ch, Stats* st) {
   } catch (std::exception& e) { r.fail = std::string("(a) library rejected a file written in the documented layout: ") + e.what(); return r; }
   std::string e = compare_with_spec(t, s);
   if (!e.empty()) { r.fail = "(a) independent writer -> library reader: " + e; return r; }
+  // keys added through write_key, with values around the length at which the header card is full: whatever
+  // write_key accepts must come back from the file (which values it accepts is C16's subject, not asserted here)
+  if (gen_version() >= 2 && ch.coin(1, 2)) {
+    int nadd = 1 + (int)ch.draw(0, 2);
+    for (int i = 0; i < nadd; i++) {
+      bool lng = ch.coin(1, 2);
+      std::string k = lng ? "ADDED KEY " + std::string(ch.draw(0, 40), 'W') + std::to_string(i) : "ADD" + std::to_string(i);
+      long full = lng ? 68 - (long)k.size() : 68;
+      long n = ch.coin(1, 3) ? (long)ch.draw(0, 75) : full + ch.range(-3, 3);
+      if (n < 1) n = 1;
+      static const char alphabet[] = "abcdefghijklmnopqrstuvwxyzABCDEFGHIJKLMNOPQRSTUVWXYZ0123456789_-+=/.,:;()[]{}<>!?@#$%^&*|~";
+      std::string v; for (long c = 0; c < n; c++) v += alphabet[ch.draw(0, sizeof(alphabet) - 2)];
+      bool accepted = true;
+      try { t.write_key(k.c_str(), v); } catch (std::exception&) { accepted = false; }
+      if (accepted) s.aux.push_back({k, v});
+      if (st) { st->label(accepted ? "aux:added_by_write_key" : "aux:write_key_refused"); if (accepted && n >= full - 1) st->label("aux:added_value_fills_card"); }
+    }
+  }
   // (b) library writer -> independent reader
   std::vector<unsigned char> out;
   try {
